@@ -2,6 +2,7 @@ package main
 
 import (
 	"go/ast"
+	"go/parser"
 	"go/token"
 	"go/types"
 	"regexp"
@@ -1112,7 +1113,86 @@ func c20r6(p *Program, r *Report) {
 				isSuccessCall = true
 			}
 			if isNil(info, rs.Results[0]) || isSuccessCall {
-				r.Check(inCaseOf(fi, rs) == "*authSuccessFrame", rs, "(*startupCoordinator).authenticateHandshake succeeds only on AUTH_SUCCESS", "inside case *authSuccessFrame", "the handshake reports success for a frame other than AUTH_SUCCESS")
+				okCase := inCaseOf(fi, rs) == "*authSuccessFrame"
+				if !okCase {
+					// success mediated by a flag: the return is reached only where a boolean field is known to be set,
+					// and that field is set to true only inside case *authSuccessFrame (anywhere in the package)
+					f, _ := p.GraphOf(fi).GuardFacts().Before(rs)
+					for atom, v := range f.m {
+						if !v || strings.ContainsAny(atom, " ()[]") || !strings.Contains(atom, ".") {
+							continue
+						}
+						e, err := parser.ParseExpr(atom)
+						if err != nil {
+							continue
+						}
+						sel, isSel := e.(*ast.SelectorExpr)
+						rid, isId := ast.Expr(nil), false
+						if isSel {
+							rid, isId = sel.X, true
+						}
+						if !isSel || !isId {
+							continue
+						}
+						root, isRoot := rid.(*ast.Ident)
+						if !isRoot {
+							continue
+						}
+						real := identNamed(fi, root.Name)
+						if real == nil {
+							continue
+						}
+						var flag *types.Var
+						if st, isSt := derefType(info.TypeOf(real)).Underlying().(*types.Struct); isSt {
+							for i := 0; i < st.NumFields(); i++ {
+								if st.Field(i).Name() == sel.Sel.Name {
+									flag = st.Field(i)
+								}
+							}
+						}
+						if flag == nil {
+							continue
+						}
+						nTrue, allInCase := 0, true
+						p.forEachFunc(false, func(u *FuncInfo) {
+							if u.Pkg != p.Root || u.Decl.Body == nil {
+								return
+							}
+							uinfo := u.Pkg.TypesInfo
+							ast.Inspect(u.Decl.Body, func(y ast.Node) bool {
+								switch z := y.(type) {
+								case *ast.AssignStmt:
+									for i, l := range z.Lhs {
+										if fieldOf(uinfo, l) != flag {
+											continue
+										}
+										if i < len(z.Rhs) && len(z.Lhs) == len(z.Rhs) && exprStr(z.Rhs[i]) == "false" {
+											continue
+										}
+										if i < len(z.Rhs) && len(z.Lhs) == len(z.Rhs) && exprStr(z.Rhs[i]) == "true" && inCaseOf(u, z) == "*authSuccessFrame" {
+											nTrue++
+											continue
+										}
+										allInCase = false
+									}
+								case *ast.KeyValueExpr:
+									if kid, isK := z.Key.(*ast.Ident); isK && uinfo.Uses[kid] == types.Object(flag) && exprStr(z.Value) != "false" {
+										allInCase = false
+									}
+								case *ast.UnaryExpr:
+									if z.Op == token.AND && fieldOf(uinfo, z.X) == flag {
+										allInCase = false
+									}
+								}
+								return true
+							})
+						})
+						if nTrue > 0 && allInCase {
+							okCase = true
+						}
+					}
+				}
+				r.Check(okCase, rs, "(*startupCoordinator).authenticateHandshake succeeds only on AUTH_SUCCESS", "inside case *authSuccessFrame", "the handshake reports success for a frame other than AUTH_SUCCESS")
 			}
 			return true
 		})
